@@ -11,6 +11,7 @@ INVARIANT DenoteOK
 INVARIANT WellFormedOK
 INVARIANT ReadersAgree
 INVARIANT RoundTripOK
+INVARIANT MachineAgrees
 PROPERTY RefusedIsNoop
 PROPERTY BufferAppendOnly
 CHECK_DEADLOCK FALSE
